@@ -5,6 +5,7 @@
 #   $OUT/uncovered.txt   one line per source line of /repo/src with an execution count of 0
 #   $OUT/summary.txt     per-file region / line coverage
 # This is a blind-spot finder for the *harness* (it is not a check and decides nothing).
+# The engines' wall-clock cap is lifted (--deadline): instrumented binaries are several times slower.
 # Scratch build output goes to $T (outside /repo and /verif) and is removed at the end.
 set -u
 OUT=${1:-/verif/build/reach}
@@ -16,19 +17,19 @@ mkdir -p "$OUT" "$T/prof"
 cd /verif/harness
 export CARGO_NET_OFFLINE=true RUSTFLAGS="-C instrument-coverage" CARGO_TARGET_DIR="$T"
 objs=()
-for prof in release relda; do
+for prof in ${REACH_PROFILES:-release relda}; do
   for b in $BINS; do
     case $b in c18|c19|c20) pkg=vfeat;; *) pkg=vcore;; esac
     cargo +nightly build --offline --profile $prof -p $pkg --bin $b 2>&1 | tail -1
     exe="$T/$prof/$b"
     [ -x "$exe" ] || { echo "no binary $exe"; continue; }
     objs+=("-object" "$exe")
-    ( cd /verif && LLVM_PROFILE_FILE="$T/prof/$b-$prof-%p.profraw" VERIF_REACH=1 "$exe" $TIER --out "$T/prof/$b-$prof.json" >/dev/null 2>"$T/prof/$b-$prof.err" ; echo "$b $prof exit $?" )
+    ( cd /verif && LLVM_PROFILE_FILE="$T/prof/$b-$prof-%p.profraw" VERIF_REACH=1 nice -n 19 "$exe" $TIER --deadline 100000 --out "$T/prof/$b-$prof.json" >/dev/null 2>"$T/prof/$b-$prof.err" ; echo "$b $prof exit $?" )
   done
 done
 "$LLVM/llvm-profdata" merge -sparse "$T"/prof/*.profraw -o "$T/all.profdata"
-"$LLVM/llvm-cov" report -instr-profile "$T/all.profdata" "${objs[@]}" /repo/src 2>/dev/null > "$OUT/summary.txt"
-"$LLVM/llvm-cov" show -instr-profile "$T/all.profdata" "${objs[@]}" /repo/src -show-line-counts-or-regions=false -show-instantiations=false 2>/dev/null \
+"$LLVM/llvm-cov" report -instr-profile "$T/all.profdata" "${objs[@]:1}" /repo/src 2>/dev/null > "$OUT/summary.txt"
+"$LLVM/llvm-cov" show -instr-profile "$T/all.profdata" "${objs[@]:1}" /repo/src -show-line-counts-or-regions=false -show-instantiations=false 2>/dev/null \
   | awk '/^\/repo\/src/ {file=$0; sub(/:$/,"",file)} /^ +[0-9]+\| +0\|/ {print file ":" $0}' > "$OUT/uncovered.txt"
 wc -l "$OUT/uncovered.txt"
 rm -rf "$T"
